@@ -1,6 +1,7 @@
 // C05 correspondence runner: drives the real scan loops behind the real chain objects, the real
 // block store and the start-block wiring of app.Run (package scanstack) through scripted faults
-// and crash points, and the repository's event handlers with failing fetches.
+// and crash points, and the repository's event handlers with every node read failing with every
+// error class of scanstack's catalogue.
 package main
 
 import (
@@ -11,10 +12,12 @@ import (
 	btcconfig "github.com/ChainSafe/sygma-relayer/chains/btc/config"
 	btclistener "github.com/ChainSafe/sygma-relayer/chains/btc/listener"
 	evmevents "github.com/ChainSafe/sygma-relayer/chains/evm/calls/events"
+	"github.com/ChainSafe/sygma-relayer/keyshare"
 	"github.com/ChainSafe/sygma-relayer/chains/evm/listener/eventHandlers"
 	sublistener "github.com/ChainSafe/sygma-relayer/chains/substrate/listener"
 	"github.com/btcsuite/btcd/btcjson"
 	"github.com/btcsuite/btcd/chaincfg/chainhash"
+	"github.com/centrifuge/go-substrate-rpc-client/v4/registry"
 	"github.com/centrifuge/go-substrate-rpc-client/v4/registry/parser"
 	"github.com/centrifuge/go-substrate-rpc-client/v4/types"
 	"github.com/ethereum/go-ethereum/common"
@@ -31,115 +34,161 @@ type Case struct {
 	// scan
 	Cfg scanstack.Cfg  `json:"cfg,omitempty"`
 	Evs []scanstack.Ev `json:"evs,omitempty"`
-	// propagate
+	// propagate: the named repository event handler, the node read that fails ("" = none) and the
+	// class of the error it fails with (catalogue: scanstack/errclass.go)
 	Handler string `json:"handler,omitempty"`
-	FetchOk bool   `json:"fetch_ok,omitempty"`
+	Point   string `json:"point,omitempty"`
+	EC      int    `json:"ec,omitempty"`
 }
 
 type Obs struct {
 	Outs []scanstack.Out `json:"outs,omitempty"`
 	Err  bool            `json:"err,omitempty"`
+	Name string          `json:"errclass,omitempty"`
 }
 
 var wiring map[string]scanstack.Wiring
 
-// ---- propagate: the repository's event handlers over a fetch that fails ------------------------------
+// ---- propagate: the repository's event handlers over a node whose reads fail -------------------------
 
-var errFetch = errors.New("fetch failed")
+// fault says which read fails and how.
+type fault struct {
+	point string
+	ec    int
+}
 
-type failingEvm struct{ ok bool }
-
-func (f failingEvm) e() error {
-	if f.ok {
-		return nil
+func (f fault) at(point string) error {
+	if f.point == point {
+		return scanstack.ErrClass(f.ec)
 	}
-	return errFetch
-}
-func (f failingEvm) FetchKeygenEvents(context.Context, common.Address, *big.Int, *big.Int) ([]ethTypes.Log, error) {
-	return nil, f.e()
-}
-func (f failingEvm) FetchFrostKeygenEvents(context.Context, common.Address, *big.Int, *big.Int) ([]ethTypes.Log, error) {
-	return nil, f.e()
-}
-func (f failingEvm) FetchRefreshEvents(context.Context, common.Address, *big.Int, *big.Int) ([]*evmevents.Refresh, error) {
-	return nil, f.e()
-}
-func (f failingEvm) FetchDeposits(context.Context, common.Address, *big.Int, *big.Int) ([]*evmevents.Deposit, error) {
-	return nil, f.e()
-}
-func (f failingEvm) FetchRetryV1Events(context.Context, common.Address, *big.Int, *big.Int) ([]evmevents.RetryV1Event, error) {
-	return nil, f.e()
-}
-func (f failingEvm) FetchRetryV2Events(context.Context, common.Address, *big.Int, *big.Int) ([]evmevents.RetryV2Event, error) {
-	return nil, f.e()
-}
-func (f failingEvm) FetchRetryDepositEvents(evmevents.RetryV1Event, common.Address, *big.Int) ([]evmevents.Deposit, error) {
-	return nil, f.e()
+	return nil
 }
 
-type failingSub struct{ ok bool }
+// failingEvmClient is the events.ChainClient under the repository's real events.Listener.
+type failingEvmClient struct{ f fault }
 
-func (f failingSub) GetFinalizedHead() (types.Hash, error) { return types.Hash{}, nil }
-func (f failingSub) GetBlock(types.Hash) (*types.SignedBlock, error) {
-	return &types.SignedBlock{}, nil
+func (c failingEvmClient) FetchEventLogs(context.Context, common.Address, string, *big.Int, *big.Int) ([]ethTypes.Log, error) {
+	return nil, c.f.at("FetchEventLogs")
 }
-func (f failingSub) GetBlockHash(uint64) (types.Hash, error)            { return types.Hash{}, nil }
-func (f failingSub) GetBlockEvents(types.Hash) ([]*parser.Event, error) { return nil, nil }
-func (f failingSub) UpdateMetatdata() error                             { return nil }
-func (f failingSub) FetchEvents(a, b *big.Int) ([]*parser.Event, error) {
-	if f.ok {
+func (c failingEvmClient) WaitAndReturnTxReceipt(common.Hash) (*ethTypes.Receipt, error) {
+	return nil, errors.New("unused")
+}
+func (c failingEvmClient) LatestBlock() (*big.Int, error) { return big.NewInt(1000), nil }
+func (c failingEvmClient) BlockByNumber(context.Context, *big.Int) (*ethTypes.Block, error) {
+	return nil, errors.New("unused")
+}
+
+type failingSub struct {
+	f     fault
+	retry bool // the range holds one SygmaBridge.Retry event
+}
+
+func (c failingSub) GetFinalizedHead() (types.Hash, error) {
+	return types.Hash{}, c.f.at("GetFinalizedHead")
+}
+func (c failingSub) GetBlock(types.Hash) (*types.SignedBlock, error) {
+	if err := c.f.at("GetBlock"); err != nil {
+		return nil, err
+	}
+	return &types.SignedBlock{Block: types.Block{Header: types.Header{Number: 100}}}, nil
+}
+func (c failingSub) GetBlockHash(uint64) (types.Hash, error) { return types.Hash{}, c.f.at("GetBlockHash") }
+func (c failingSub) GetBlockEvents(types.Hash) ([]*parser.Event, error) {
+	return nil, c.f.at("GetBlockEvents")
+}
+func (c failingSub) UpdateMetatdata() error { return nil }
+func (c failingSub) FetchEvents(a, b *big.Int) ([]*parser.Event, error) {
+	if err := c.f.at("FetchEvents"); err != nil {
+		return nil, err
+	}
+	if !c.retry {
 		return nil, nil
 	}
-	return nil, errFetch
+	return []*parser.Event{{Name: "SygmaBridge.Retry", Fields: registry.DecodedFields{
+		&registry.DecodedField{Name: "deposit_on_block_height", Value: types.NewU128(*big.NewInt(5))},
+		&registry.DecodedField{Name: "dest_domain_id", Value: types.NewU8(2)},
+	}}}, nil
 }
 
-type failingBtc struct {
-	hashOk, blockOk bool
-}
+type failingBtc struct{ f fault }
 
-func (f failingBtc) GetRawTransactionVerbose(*chainhash.Hash) (*btcjson.TxRawResult, error) {
-	return nil, errFetch
+func (c failingBtc) GetRawTransactionVerbose(*chainhash.Hash) (*btcjson.TxRawResult, error) {
+	return nil, errors.New("unused")
 }
-func (f failingBtc) GetBestBlockHash() (*chainhash.Hash, error) { return &chainhash.Hash{}, nil }
-func (f failingBtc) GetBlockHash(int64) (*chainhash.Hash, error) {
-	if f.hashOk {
-		return &chainhash.Hash{}, nil
+func (c failingBtc) GetBestBlockHash() (*chainhash.Hash, error) { return &chainhash.Hash{}, nil }
+func (c failingBtc) GetBlockHash(int64) (*chainhash.Hash, error) {
+	if err := c.f.at("GetBlockHash"); err != nil {
+		return nil, err
 	}
-	return nil, errFetch
+	return &chainhash.Hash{}, nil
 }
-func (f failingBtc) GetBlockVerboseTx(*chainhash.Hash) (*btcjson.GetBlockVerboseTxResult, error) {
-	if f.blockOk {
-		return &btcjson.GetBlockVerboseTxResult{}, nil
+func (c failingBtc) GetBlockVerboseTx(*chainhash.Hash) (*btcjson.GetBlockVerboseTxResult, error) {
+	if err := c.f.at("GetBlockVerboseTx"); err != nil {
+		return nil, err
 	}
-	return nil, errFetch
+	return &btcjson.GetBlockVerboseTxResult{}, nil
 }
 
-var propagateHandlers = []string{"evm-deposit", "evm-retryv1", "evm-retryv2", "sub-fungible", "sub-retry", "sub-sysupdate", "btc-hash", "btc-block"}
+// noKeyshare is the key-share store of a relayer that has no key yet (so the keygen handler looks
+// for StartKeygen events).
+type noKeyshare struct{}
 
-func propagate(name string, ok bool) bool {
+func (noKeyshare) StoreKeyshare(keyshare.ECDSAKeyshare) error { return nil }
+func (noKeyshare) LockKeyshare()                              {}
+func (noKeyshare) UnlockKeyshare()                            {}
+func (noKeyshare) GetKeyshare() (keyshare.ECDSAKeyshare, error) {
+	return keyshare.ECDSAKeyshare{}, errors.New("no key share")
+}
+
+// propagatePoints: per repository event handler the node reads whose failure the handler must
+// report (it reads the range's events through them, or cannot process an event of the range
+// without them).  Reads whose failure the code deliberately tolerates (the EVM block timestamp
+// lookup; the receipt lookup of an EVM RetryV1 event, whose error also stands for "not enough
+// confirmations yet") are not listed: the property does not demand anything there.
+var propagatePoints = []struct {
+	Handler string
+	Points  []string
+}{
+	{"evm-deposit", []string{"FetchEventLogs"}},
+	{"evm-retryv1", []string{"FetchEventLogs"}},
+	{"evm-retryv2", []string{"FetchEventLogs"}},
+	{"evm-keygen", []string{"FetchEventLogs"}},
+	{"evm-frostkeygen", []string{"FetchEventLogs"}},
+	{"evm-refresh", []string{"FetchEventLogs"}},
+	{"sub-fungible", []string{"FetchEvents"}},
+	{"sub-sysupdate", []string{"FetchEvents"}},
+	{"sub-retry", []string{"FetchEvents", "GetFinalizedHead", "GetBlock", "GetBlockHash", "GetBlockEvents"}},
+	{"btc", []string{"GetBlockHash", "GetBlockVerboseTx"}},
+}
+
+func propagate(name string, f fault) bool {
 	logC := zerolog.Nop().With()
 	ch := make(chan []*message.Message, 4)
 	s, e := big.NewInt(10), big.NewInt(14)
+	evm := evmevents.NewListener(failingEvmClient{f})
 	var err error
 	switch name {
 	case "evm-deposit":
-		err = eventHandlers.NewDepositEventHandler(failingEvm{ok}, nil, common.Address{}, 1, ch).HandleEvents(s, e)
+		err = eventHandlers.NewDepositEventHandler(evm, nil, common.Address{}, 1, ch).HandleEvents(s, e)
 	case "evm-retryv1":
-		err = eventHandlers.NewRetryV1EventHandler(logC, failingEvm{ok}, nil, nil, common.Address{}, 1, big.NewInt(1), ch).HandleEvents(s, e)
+		err = eventHandlers.NewRetryV1EventHandler(logC, evm, nil, nil, common.Address{}, 1, big.NewInt(1), ch).HandleEvents(s, e)
 	case "evm-retryv2":
-		err = eventHandlers.NewRetryV2EventHandler(logC, failingEvm{ok}, common.Address{}, 1, ch).HandleEvents(s, e)
+		err = eventHandlers.NewRetryV2EventHandler(logC, evm, common.Address{}, 1, ch).HandleEvents(s, e)
+	case "evm-keygen":
+		err = eventHandlers.NewKeygenEventHandler(logC, evm, nil, nil, nil, noKeyshare{}, common.Address{}, 2).HandleEvents(s, e)
+	case "evm-frostkeygen":
+		err = eventHandlers.NewFrostKeygenEventHandler(logC, evm, nil, nil, nil, nil, common.Address{}, 2).HandleEvents(s, e)
+	case "evm-refresh":
+		err = eventHandlers.NewRefreshEventHandler(logC, nil, nil, evm, nil, nil, nil, nil, nil, nil, common.Address{}).HandleEvents(s, e)
 	case "sub-fungible":
-		err = sublistener.NewFungibleTransferEventHandler(logC, 1, nil, ch, failingSub{ok}).HandleEvents(s, e)
+		err = sublistener.NewFungibleTransferEventHandler(logC, 1, nil, ch, failingSub{f: f}).HandleEvents(s, e)
 	case "sub-retry":
-		err = sublistener.NewRetryEventHandler(logC, failingSub{ok}, nil, 1, ch).HandleEvents(s, e)
+		err = sublistener.NewRetryEventHandler(logC, failingSub{f: f, retry: true}, nil, 1, ch).HandleEvents(s, e)
 	case "sub-sysupdate":
-		err = sublistener.NewSystemUpdateEventHandler(failingSub{ok}).HandleEvents(s, e)
-	case "btc-hash":
+		err = sublistener.NewSystemUpdateEventHandler(failingSub{f: f}).HandleEvents(s, e)
+	case "btc":
 		_, fee := scanstack.BtcResources(nil)
-		err = btclistener.NewFungibleTransferEventHandler(logC, 1, &btclistener.BtcDepositHandler{}, ch, failingBtc{ok, true}, map[[32]byte]btcconfig.Resource{}, fee).HandleEvents(s)
-	case "btc-block":
-		_, fee := scanstack.BtcResources(nil)
-		err = btclistener.NewFungibleTransferEventHandler(logC, 1, &btclistener.BtcDepositHandler{}, ch, failingBtc{true, ok}, map[[32]byte]btcconfig.Resource{}, fee).HandleEvents(s)
+		err = btclistener.NewFungibleTransferEventHandler(logC, 1, &btclistener.BtcDepositHandler{}, ch, failingBtc{f}, map[[32]byte]btcconfig.Resource{}, fee).HandleEvents(s)
 	default:
 		panic("handler " + name)
 	}
@@ -148,7 +197,11 @@ func propagate(name string, ok bool) bool {
 
 func run(c Case) Obs {
 	if c.Type == "propagate" {
-		return Obs{Err: propagate(c.Handler, c.FetchOk)}
+		o := Obs{Err: propagate(c.Handler, fault{c.Point, c.EC})}
+		if c.Point != "" {
+			o.Name = scanstack.ErrClassName(c.EC)
+		}
+		return o
 	}
 	w, ok := wiring[c.Cfg.Kind]
 	if !ok {
@@ -178,7 +231,7 @@ func genScript(r *vgen.Rng, cfg scanstack.Cfg, rounds, crashes int) []scanstack.
 	var evs []scanstack.Ev
 	for i := 0; i < rounds; i++ {
 		if r.Chance(1, 10) {
-			evs = append(evs, scanstack.Ev{T: "rpcfail"})
+			evs = append(evs, scanstack.Ev{T: "rpcfail", EC: r.Intn(scanstack.NumErrClasses())})
 		}
 		switch r.Intn(5) {
 		case 0:
@@ -193,11 +246,19 @@ func genScript(r *vgen.Rng, cfg scanstack.Cfg, rounds, crashes int) []scanstack.
 		failed := false
 		for k := 0; k < cfg.NH && !failed; k++ {
 			ok := !r.Chance(1, 7)
-			evs = append(evs, scanstack.Ev{T: "handler", Ok: ok})
+			ev := scanstack.Ev{T: "handler", Ok: ok}
+			if !ok { // where and how handler 0 (the repository's deposit handler) fails
+				ev.P, ev.EC = r.Intn(2), r.Intn(scanstack.NumErrClasses())
+			}
+			evs = append(evs, ev)
 			failed = !ok
 		}
 		if !failed {
-			evs = append(evs, scanstack.Ev{T: "store", Ok: !r.Chance(1, 6)})
+			st := scanstack.Ev{T: "store", Ok: !r.Chance(1, 6)}
+			if !st.Ok {
+				st.EC = r.Intn(scanstack.NumErrClasses())
+			}
+			evs = append(evs, st)
 		}
 		if r.Chance(1, 12) { // an event that does not apply where it arrives
 			evs = append(evs, vgen.Pick(r, []scanstack.Ev{{T: "store", Ok: true}, {T: "handler", Ok: true}, {T: "handler"}, {T: "rpcfail"}}))
@@ -210,11 +271,71 @@ func genScript(r *vgen.Rng, cfg scanstack.Cfg, rounds, crashes int) []scanstack.
 	return evs
 }
 
+// sweep: short scans in which one handler (the repository's deposit handler at each of its node
+// reads, or - Bitcoin, whose listener is the repository's - a later handler), the head read or the
+// block-store write fails ONCE with each error class of the catalogue, is retried successfully, and
+// the next range is handled and persisted.
+func sweep() []Case {
+	var out []Case
+	nec := scanstack.NumErrClasses()
+	okHandlers := func(evs []scanstack.Ev, n int) []scanstack.Ev {
+		for i := 0; i < n; i++ {
+			evs = append(evs, scanstack.Ev{T: "handler", Ok: true})
+		}
+		return evs
+	}
+	for _, kind := range kinds {
+		for nh := 1; nh <= 2; nh++ {
+			for k := 0; k < nh; k++ {
+				if k > 0 && kind != "btc" {
+					continue // a plain fake handler under a sygma-core listener: nothing of the repository
+				}
+				points := 1
+				if kind == "btc" && k == 0 {
+					points = 2
+				}
+				for p := 0; p < points; p++ {
+					for ec := 0; ec < nec; ec++ {
+						cfg := scanstack.Cfg{Kind: kind, Ival: 3, Conf: 1, NH: nh, CStart: 30}
+						evs := []scanstack.Ev{{T: "head", H: 60}}
+						evs = okHandlers(evs, k)
+						evs = append(evs, scanstack.Ev{T: "handler", P: p, EC: ec}, scanstack.Ev{T: "head", H: 60})
+						evs = okHandlers(evs, nh)
+						evs = append(evs, scanstack.Ev{T: "store", Ok: true}, scanstack.Ev{T: "head", H: 60})
+						evs = okHandlers(evs, nh)
+						evs = append(evs, scanstack.Ev{T: "store", Ok: true})
+						out = append(out, Case{Type: "scan", Cfg: cfg, Evs: evs})
+					}
+				}
+			}
+		}
+	}
+	for ec := 0; ec < nec; ec++ {
+		cfg := scanstack.Cfg{Kind: "btc", Ival: 1, Conf: 2, NH: 1, CStart: 100}
+		out = append(out, Case{Type: "scan", Cfg: cfg, Evs: []scanstack.Ev{
+			{T: "head", H: 110}, {T: "handler", Ok: true}, {T: "store", Ok: true},
+			{T: "rpcfail", EC: ec}, {T: "rpcfail", EC: ec}, {T: "head", H: 110}, {T: "handler", Ok: true}, {T: "store", Ok: true},
+			{T: "head", H: 110}, {T: "handler", Ok: true}, {T: "store", Ok: true}}})
+		out = append(out, Case{Type: "scan", Cfg: cfg, Evs: []scanstack.Ev{
+			{T: "head", H: 110}, {T: "handler", Ok: true}, {T: "store", EC: ec},
+			{T: "head", H: 110}, {T: "handler", Ok: true}, {T: "store", Ok: true}, {T: "crash"},
+			{T: "head", H: 110}, {T: "handler", Ok: true}, {T: "store", Ok: true}}})
+	}
+	return out
+}
+
 func gen(r *vgen.Rng, tier string) []Case {
 	var out []Case
-	for _, h := range propagateHandlers {
-		out = append(out, Case{Type: "propagate", Handler: h, FetchOk: true}, Case{Type: "propagate", Handler: h, FetchOk: false})
+	// every repository event handler x every node read it depends on x every error class
+	for _, h := range propagatePoints {
+		out = append(out, Case{Type: "propagate", Handler: h.Handler})
+		for _, pt := range h.Points {
+			for ec := 0; ec < scanstack.NumErrClasses(); ec++ {
+				out = append(out, Case{Type: "propagate", Handler: h.Handler, Point: pt, EC: ec})
+			}
+		}
 	}
+	out = append(out, sweep()...)
 	n := 420
 	if tier == "thorough" {
 		n = 6000
@@ -309,7 +430,7 @@ func CoqOut(o scanstack.Out) string {
 
 func coq(c Case, o Obs) string {
 	if c.Type == "propagate" {
-		return "Propagate " + vgen.Bool(c.FetchOk) + " " + vgen.Bool(o.Err)
+		return "Propagate " + vgen.Bool(c.Point == "") + " " + vgen.Bool(o.Err)
 	}
 	g := c.Cfg
 	return "Scan " + coqKind(g.Kind) + " " + vgen.Z(g.Ival) + " " + vgen.Z(g.Conf) + " " + vgen.Nat(g.NH) + " " + vgen.Z(g.CStart) +
@@ -328,13 +449,16 @@ func main() {
 		ShardSize: 60,
 		Kind: func(c Case) string {
 			if c.Type == "propagate" {
-				return "propagate-" + c.Handler
+				if c.Point == "" {
+					return "propagate-" + c.Handler
+				}
+				return "propagate-" + c.Handler + "@" + c.Point
 			}
 			return "scan-" + c.Cfg.Kind
 		},
 		NonTrivial: func(c Case, o Obs) bool {
 			if c.Type == "propagate" {
-				return !c.FetchOk
+				return c.Point != ""
 			}
 			for _, x := range o.Outs {
 				if x.T == "store" {
@@ -343,6 +467,6 @@ func main() {
 			}
 			return false
 		},
-		Rule: "environment scripts (RPC failures, heads, per-handler results, store results, 0..4 crash points, inapplicable events) for the real EVM/Substrate/BTC listener stacks wired per the extracted app.go record, intervals 1..7, confirmations 0..12, 1..3 handlers, configured starts aligned/unaligned/large, stored cursor absent/behind/ahead, latest/fresh flags; plus each repository event handler with a succeeding and a failing fetch; distinct = distinct input JSON; non-trivial = a scan in which at least one range was fully handled and StoreBlock was reached, or a failing fetch",
+		Rule: "environment scripts (RPC failures, heads, per-handler results, store results, 0..4 crash points, inapplicable events) for the real EVM/Substrate/BTC listener stacks wired per the extracted app.go record, intervals 1..7, confirmations 0..12, 1..3 handlers, configured starts aligned/unaligned/large, stored cursor absent/behind/ahead, latest/fresh flags; a failing handler-0 event fails one of the real deposit handler's node reads (BTC GetBlockHash / GetBlockVerboseTx, EVM eth_getLogs under the real events.Listener, Substrate FetchEvents) with an error class drawn from the catalogue; a sweep of short scans in which the deposit handler at each node read, a later Bitcoin handler, the Bitcoin head read or block-store write fails once with each error class; plus every repository event handler (EVM deposit/retryV1/retryV2/keygen/frost-keygen/refresh over the real events.Listener, Substrate fungible/retry/system-update, BTC fungible) x every node read it depends on x every error class of the catalogue (plain, wrapped, *btcjson.RPCError codes, io.EOF, context, ethereum.NotFound, JSON-RPC error objects, HTTP/transport errors, texts); distinct = distinct input JSON; non-trivial = a scan in which at least one range was fully handled and StoreBlock was reached, or a failing read",
 	})
 }
